@@ -46,8 +46,10 @@ class CkptWorld:
 
     def __init__(self, restore_at: Sequence[int], resume_script: Sequence[Any], medium: str, horizon: int = 3000,
                  gate_values: Optional[Callable[[int], Any]] = None, exit_restore_at: Sequence[int] = (),
-                 foreign_loop: bool = False) -> None:
+                 foreign_loop: bool = False, spare_saves: bool = False) -> None:
         self.restore_at = set(restore_at)
+        # a checkpoint is also written (and never used) every time a state has been entered: writing one changes nothing
+        self.spare_saves = spare_saves
         # restore while *another* loop is the current one: the loop of the restored process is the one handed over in the
         # load context, whatever loop happens to be current where the checkpoint is loaded
         self.foreign_loop = foreign_loop
@@ -77,7 +79,7 @@ class CkptWorld:
     def attach(self, proc: Any) -> None:
         self.proc = proc
         proc.add_state_event_callback(state_machine.StateEventHook.ENTERED_STATE, self._entered)
-        if self.exit_restore_at:
+        if self.exit_restore_at or self.spare_saves:
             proc.add_state_event_callback(state_machine.StateEventHook.EXITING_STATE, self._exiting)
 
     def _exiting(self, sm: Any, hook: Any, next_state: Any) -> None:
@@ -93,6 +95,8 @@ class CkptWorld:
         frm = from_state.LABEL if from_state is not None else None
         self.entered.append((frm, sm.state))
         if sm.state in (PS.RUNNING, PS.WAITING):
+            if self.spare_saves:
+                persistence.Bundle(sm)
             self.boundary += 1
             if self.boundary in self.restore_at:
                 self.snapshot = through(persistence.Bundle(sm), self.medium)
